@@ -387,8 +387,9 @@ def run(prop: str, case: Dict[str, Any]) -> Dict[str, Any]:
         if info["where"] != "repo":
             raise
         op = case["ops"][ctx.op_index] if ctx.op_index is not None and ctx.op_index < len(case["ops"]) else {}
+        extra = {"wrapper": case["cfg"]["wrapper"], "obs": case["cfg"]["obs"]} if case["cfg"].get("wrapper") else {}
         ctx.report(f"{prop}/exception:{info['type']}@{info['site']}",
-                   f"{type(e).__name__}: {str(e)[:300]} (op {ctx.op_index}: {op})", algo=case["cfg"]["algo"])
+                   f"{type(e).__name__}: {str(e)[:300]} (op {ctx.op_index}: {op})", algo=case["cfg"]["algo"], **extra)
     return ctx.result()
 
 
@@ -1032,6 +1033,10 @@ def build_subject(w: World, case: Dict[str, Any], upto: int):
     cfg = w.cfg
     hp = A.hp_config(cfg) if cfg["hp"] != "none" else None
     ag = A.make_agent(cfg, index=case.get("index", 3), hp=hp, seed=kernel.derive(case["cfg_seed"], "subject"))
+    if cfg.get("wrapper") == "RSNorm":
+        from agilerl.wrappers.agent import RSNorm
+
+        ag = RSNorm(ag)
     for op in case["ops"][:upto]:
         ag = apply_subject_op(w, ag, op)
     return ag
@@ -1088,11 +1093,28 @@ class SimFile:
 
 def restore(w: World, ag, data: bytes, path: str, case):
     cfg = w.cfg
-    if path == "load":
-        return type(ag).load(io.BytesIO(data))
     hp = A.hp_config(cfg) if cfg["hp"] != "none" else None
     # "into an existing one": an agent of the same kind that has its own, different, hyperparameters and weights
     other = dict(cfg, lr=cfg["lr"] * 3.0, batch_size=cfg["batch_size"] + 1)
+    if cfg.get("wrapper") == "RSNorm":
+        # the wrapper's load path opens the file twice: a real file (private, removed afterwards) stands in for the disk
+        import tempfile
+
+        from agilerl.wrappers.agent import RSNorm
+
+        fd, fname = tempfile.mkstemp(prefix="c07_", suffix=".pt", dir="/dev/shm" if os.path.isdir("/dev/shm") else None)
+        try:
+            with os.fdopen(fd, "wb") as f:
+                f.write(data)
+            if path == "load":
+                return type(ag.agent).load(fname)
+            fresh = RSNorm(A.make_agent(other, index=77, hp=hp, seed=kernel.derive(case["cfg_seed"], "fresh")))
+            fresh.load_checkpoint(fname)
+            return fresh
+        finally:
+            os.unlink(fname)
+    if path == "load":
+        return type(ag).load(io.BytesIO(data))
     fresh = A.make_agent(other, index=77, hp=hp, seed=kernel.derive(case["cfg_seed"], "fresh"))
     fresh.load_checkpoint(io.BytesIO(data))
     return fresh
@@ -1123,6 +1145,9 @@ def gen_c07(rng: random.Random, tier: str) -> Dict[str, Any]:
         kind = rng.choice(["torn", "eio", "enospc", "lost_tail_block"])
         fault = {"kind": kind, "frac": rng.choice([0.0, 0.3, 0.9, 0.999]), "at_write": rng.randint(1, 12), "after_bytes": rng.choice([0, 100, 5000, 40000]),
                  "block": rng.choice([64, 512, 4096])}
+    if cfg["algo"] in ("DQN", "RainbowDQN", "DDPG", "TD3", "CQN") and cfg["obs"] in ("vector", "tuple", "dict") and rng.random() < 0.3:
+        cfg["wrapper"] = "RSNorm"
+        fault = None
     return {"engine": "world", "prop": "C07", "cfg": cfg, "cfg_seed": rng.getrandbits(31), "index": rng.randint(0, 9), "ops": ops, "suffix": suffix,
             "crash_points": cps, "path": rng.choice(["load", "load_checkpoint"]), "fault": fault}
 
@@ -1186,7 +1211,9 @@ def run_c07(ctx: kernel.Ctx, case: Dict[str, Any]) -> None:
             if vd2 or bd2:
                 ctx.report(f"{pre}/diverges_after_restore", f"crash point {c}: after the same {len(case['suffix'])} events original and restored agent differ in {vd2[:5]} {bd2[:3]}",
                            path=case["path"], **w.loc)
-        ctx.state((w.cfg["algo"], w.cfg["obs"], case["path"], c, tuple(o["op"] + o.get("kind", "") for o in case["ops"][max(0, c - 2):c])))
+        if w.cfg.get("wrapper"):
+            ctx.probe("agent_wrapper_round_trip")
+        ctx.state((w.cfg["algo"], w.cfg["obs"], w.cfg.get("wrapper"), case["path"], c, tuple(o["op"] + o.get("kind", "") for o in case["ops"][max(0, c - 2):c])))
     ctx.nontrivial = any(o["op"] in ("learn", "mutate") for o in case["ops"][: max(cps)])
 
 
